@@ -224,5 +224,119 @@ theorem segment_residual {A B : V → Prop} {sup : Sup ℝ} (hs : SupOK A B sup)
     linarith)
   exact this
 
+/-! ### the degenerate-portal branch of the repaired `_contact_position` (045c18e) -/
+
+theorem closestRow_mem (p1 p2 p3 : SP ℝ) :
+    (closestRow p1 p2 p3).1 = p1 ∨ (closestRow p1 p2 p3).1 = p2 ∨ (closestRow p1 p2 p3).1 = p3 := by
+  unfold closestRow
+  dsimp only
+  by_cases h1 : V3.dot p2.v p2.v < V3.dot p1.v p1.v
+  · simp only [h1, if_true]; split_ifs <;> simp
+  · simp only [h1, if_false]; split_ifs <;> simp
+
+/-- the scan returns a row of smallest `|v|²` -/
+theorem closestRow_min (p1 p2 p3 : SP ℝ) :
+    V3.normSq (closestRow p1 p2 p3).1.v ≤ V3.normSq p1.v ∧
+    V3.normSq (closestRow p1 p2 p3).1.v ≤ V3.normSq p2.v ∧
+    V3.normSq (closestRow p1 p2 p3).1.v ≤ V3.normSq p3.v := by
+  unfold closestRow
+  simp only [← normSq_eq_dot]
+  by_cases h1 : V3.normSq p2.v < V3.normSq p1.v
+  · simp only [h1, if_true]
+    by_cases h2 : V3.normSq p3.v < V3.normSq p2.v
+    · simp only [h2, if_true]; refine ⟨?_, ?_, ?_⟩ <;> linarith
+    · simp only [h2, if_false]; refine ⟨?_, ?_, ?_⟩ <;> linarith
+  · simp only [h1, if_false]
+    by_cases h2 : V3.normSq p3.v < V3.normSq p1.v
+    · simp only [h2, if_true]; refine ⟨?_, ?_, ?_⟩ <;> linarith
+    · simp only [h2, if_false]; refine ⟨?_, ?_, ?_⟩ <;> linarith
+
+/-- the index reported with the row is the row's index; ties go to the first minimum -/
+theorem closestRow_index (p1 p2 p3 : SP ℝ) :
+    ((closestRow p1 p2 p3).2 = 1 ∧ (closestRow p1 p2 p3).1 = p1) ∨
+    ((closestRow p1 p2 p3).2 = 2 ∧ (closestRow p1 p2 p3).1 = p2 ∧ V3.normSq p2.v < V3.normSq p1.v) ∨
+    ((closestRow p1 p2 p3).2 = 3 ∧ (closestRow p1 p2 p3).1 = p3 ∧ V3.normSq p3.v < V3.normSq p1.v ∧
+      V3.normSq p3.v < V3.normSq p2.v) := by
+  by_cases h1 : V3.normSq p2.v < V3.normSq p1.v
+  · by_cases h2 : V3.normSq p3.v < V3.normSq p2.v
+    · have e : closestRow p1 p2 p3 = (p3, 3) := by
+        unfold closestRow; simp only [← normSq_eq_dot, h1, h2, if_true]
+      rw [e]; right; right; exact ⟨rfl, rfl, by linarith, h2⟩
+    · have e : closestRow p1 p2 p3 = (p2, 2) := by
+        unfold closestRow; simp only [← normSq_eq_dot, h1, h2, if_true, if_false]
+      rw [e]; right; left; exact ⟨rfl, rfl, h1⟩
+  · by_cases h2 : V3.normSq p3.v < V3.normSq p1.v
+    · have e : closestRow p1 p2 p3 = (p3, 3) := by
+        unfold closestRow; simp only [← normSq_eq_dot, h1, h2, if_true, if_false]
+      rw [e]; right; right; exact ⟨rfl, rfl, h2, by linarith⟩
+    · have e : closestRow p1 p2 p3 = (p1, 1) := by
+        unfold closestRow; simp only [← normSq_eq_dot, h1, h2, if_false]
+      rw [e]; left; exact ⟨rfl, rfl⟩
+
+/-- the point returned by the degenerate branch: midpoint of the pre-images `a ∈ A`, `b ∈ B` of one
+portal row `p` (a row of smallest `|v|`), `|p.v| / 2` away from both; if that row is the origin
+(touching contact) the point is the common point `a = b` of `A` and `B` -/
+theorem degeneratePos_spec {A B : V → Prop} {P : Portal ℝ}
+    (h1 : SPIn A B P.p1) (h2 : SPIn A B P.p2) (h3 : SPIn A B P.p3) :
+    ∃ p : SP ℝ, p = (closestRow P.p1 P.p2 P.p3).1 ∧ (p = P.p1 ∨ p = P.p2 ∨ p = P.p3) ∧
+      A p.a ∧ B p.b ∧ p.v = p.a - p.b ∧
+      degeneratePos P = V3.smul 0.5 (p.a + p.b) ∧
+      V3.norm (degeneratePos P - p.a) = V3.norm p.v / 2 ∧
+      V3.norm (degeneratePos P - p.b) = V3.norm p.v / 2 ∧
+      V3.normSq p.v ≤ V3.normSq P.p1.v ∧ V3.normSq p.v ≤ V3.normSq P.p2.v ∧
+      V3.normSq p.v ≤ V3.normSq P.p3.v ∧
+      (p.v = V3.zero → A (degeneratePos P) ∧ B (degeneratePos P)) := by
+  have hmem := closestRow_mem P.p1 P.p2 P.p3
+  have hmin := closestRow_min P.p1 P.p2 P.p3
+  have hin : SPIn A B (closestRow P.p1 P.p2 P.p3).1 := by
+    rcases hmem with h | h | h <;> rw [h] <;> assumption
+  refine ⟨_, rfl, hmem, hin.1, hin.2.1, hin.2.2, rfl, ?_, ?_, hmin.1, hmin.2.1, hmin.2.2, ?_⟩
+  · unfold degeneratePos; rw [(midpoint_dist _ _).1, hin.2.2]
+  · unfold degeneratePos; rw [(midpoint_dist _ _).2, hin.2.2]
+  · intro hv
+    have := touch_contact_exact hin hv
+    unfold findPenetrationTouch at this
+    exact this
+
+/-- after the repair `_contact_position` cannot divide by zero: it returns for every portal -/
+theorem contactPosition_total (P : Portal ℝ) (dir : V) : ∃ c, contactPosition P dir = .ok c := by
+  have hE := EPS_pos
+  unfold contactPosition contactCombine
+  dsimp only
+  simp only [isZero_iff]
+  split_ifs with h1 h2 hz hz
+  · exact ⟨_, rfl⟩
+  · exfalso
+    apply h2; rw [hz, absS_real, abs_zero]; exact hE
+  · exact ⟨_, rfl⟩
+  · exfalso; rw [hz] at h1; exact h1 hE
+  · exact ⟨_, rfl⟩
+
+/-- before the repair: on a degenerate portal whose fallback weights sum to exactly zero the
+weights were divided by zero -/
+theorem contactPosition_before_fix_divZero (P : Portal ℝ) (dir : V)
+    (h1 : sum4 (baryMain P.p0.v P.p1.v P.p2.v P.p3.v) < EPS)
+    (h2 : sum4 (baryFallback P.p1.v P.p2.v P.p3.v dir) = 0) :
+    contactPosition_asIs_before_fix P dir = .error .divZero := by
+  unfold contactPosition_asIs_before_fix contactWeights
+  dsimp only
+  simp only [h1, if_true, h2, (isZero_iff 0).mpr rfl]
+  rfl
+
+/-- the degenerate branch also returns the midpoint of two weighted pre-images — with the unit
+weight on the closest row -/
+theorem degeneratePos_as_comb (P : Portal ℝ) :
+    ∃ w : ℝ × ℝ × ℝ × ℝ, sum4 w = 1 ∧ 0 ≤ w.1 ∧ 0 ≤ w.2.1 ∧ 0 ≤ w.2.2.1 ∧ 0 ≤ w.2.2.2 ∧
+      degeneratePos P = V3.smul 0.5 (comb4 w P.p0.a P.p1.a P.p2.a P.p3.a +
+        comb4 w P.p0.b P.p1.b P.p2.b P.p3.b) := by
+  unfold degeneratePos
+  rcases closestRow_mem P.p1 P.p2 P.p3 with h | h | h <;> rw [h]
+  · refine ⟨(0, 1, 0, 0), by simp [sum4], by norm_num, by norm_num, by norm_num, by norm_num, ?_⟩
+    congr 2 <;> apply V3.ext' <;> simp [comb4]
+  · refine ⟨(0, 0, 1, 0), by simp [sum4], by norm_num, by norm_num, by norm_num, by norm_num, ?_⟩
+    congr 2 <;> apply V3.ext' <;> simp [comb4]
+  · refine ⟨(0, 0, 0, 1), by simp [sum4], by norm_num, by norm_num, by norm_num, by norm_num, ?_⟩
+    congr 2 <;> apply V3.ext' <;> simp [comb4]
+
 end MprPen
 end D3
